@@ -355,7 +355,7 @@ def search(run, broken):
 
 
 def replay(run, rp):
-    if "history" in rp:
+    if isinstance(rp.get("history"), (list, dict)):
         h = rp["history"]
         return (check_object_history(h) if isinstance(h, dict) and "steps" in h else check_history(h)) is not None
     if "case" in rp:
